@@ -219,6 +219,8 @@ def main(argv=None) -> int:
             bad += 1
             continue
         fired = sorted(p for p, v in r["results"].items() if v["exit"] == 1)
+        if e["kind"] != "mutant":
+            fired = [p for p in fired if p not in e.get("may_fire", [])]  # documented in the entry's note
         errs = sorted(p for p, v in r["results"].items() if v["exit"] not in (0, 1))
         exp = [p for p in expected_fire(e) if p in props]
         status = "ok"
